@@ -52,6 +52,10 @@ def run(ctx):
     for body in gen.long_bodies(rng, ctx.quick()):
         cmds.append("CONSTRUCT 01 02 0 1 PAYLOAD %s" % gen.hx(body))
         built.append(("payload", b"\x01\x02", 0, body))
+    # integer addressing: msgclass2bytes on every (class, id) pair
+    for c in range(256):
+        for i in (range(256) if not ctx.quick() else list(range(0, 256, 5)) + [0x80, 0x13, 0xff, 1, 2, 6]):
+            cmds.append("INTS %x %x" % (c, i))
     # config helpers
     keys = list(UBX_CONFIG_DATABASE.items())
     for _ in range(60 if ctx.quick() else 600):
@@ -117,6 +121,25 @@ def run(ctx):
             nadd += 1
             if len(set(frames)) != 1:
                 ctx.fail("addressing-forms-differ", {"op": "ADDR", "name": name, "mode": mode}, "identical frames", repr(frames)[:200])
+    # message types keyed by class, id AND payload type (MGA-*): the three addressing forms, with a payload that
+    # starts with the type byte
+    for key, name in UBX_MSGIDS.items():
+        if len(key) != 3 or key[0:1] not in UBX_CLASSES:
+            continue
+        for mode in (0, 1, 2):
+            pl = key[2:3] + bytes(7)
+            frames = []
+            for form in ((UBX_CLASSES[key[0:1]], name), (key[0], key[1]), (key[0:1], key[1:2])):
+                try:
+                    with impl.quiet():
+                        frames.append(UBXMessage(form[0], form[1], mode, payload=pl).serialize())
+                except Exception as e:  # pylint: disable=broad-except
+                    frames.append(type(e).__name__)
+            nadd += 1
+            if len(set(frames)) != 1:
+                ctx.fail("addressing-forms-differ", {"op": "ADDR", "name": name, "mode": mode, "payload": pl.hex()}, "identical frames", repr(frames)[:300])
+            elif isinstance(frames[0], bytes) and frames[0][2:4] != key[0:2]:
+                ctx.fail("addressing-wrong-class-id", {"op": "ADDR", "name": name, "mode": mode}, key[0:2].hex(), frames[0][2:4].hex())
     ctx.count("addressing_cases", nadd)
     ctx.evaluations += nadd + len(sers)
 
